@@ -87,6 +87,8 @@ def gen(S, tier):
     s = S("schedule")
     cls = c.weighted([("auto", 7), ("manual", 3)])
     sc = {"class": cls, "ansi": c.chance(0.85), "verbosity": c.weighted([(0, 5), (1, 1), (2, 1)]),
+          # clikit's own StreamOutputStream over a simulated text file, or the simulated stream directly
+          "real_stream": c.chance(0.3),
           "interval": c.pick([100, 100, 50, 250]), "values": c.pick(VALUES),
           "fmt": c.pick([None, None, None, " {indicator} {message}", "{message} {indicator}"])}
     if cls == "manual":
@@ -171,7 +173,7 @@ def simplify(sc):
                 if lat[i]:
                     yield dict(sc, latency_us=lat[:i] + [0] + lat[i + 1:])
         for k, v in (("quantum_us", 0), ("granularity", "seam"), ("verbosity", 0), ("values", None), ("fmt", None),
-                     ("interval", 100)):
+                     ("interval", 100), ("real_stream", False)):
             if sc.get(k) != v:
                 yield dict(sc, **{k: v})
         for key in ("body", "second"):
@@ -220,8 +222,14 @@ def execute(sc):
 def _mk_io(sc, log, screen, on_write=None, after_write=None):
     from clikit.api.io.output import Output
     from clikit.formatter import AnsiFormatter
-    stream = SimOutputStream("err", log, ansi=sc["ansi"], screen=screen, on_write=on_write)
-    stream.after_write = after_write
+    if sc.get("real_stream"):
+        from ..realstream import RealStreamOutput, SimFile
+        f = SimFile("err", log, screen=screen, on_write=on_write)
+        f.after_write = after_write
+        stream = RealStreamOutput(f, sc["ansi"])
+    else:
+        stream = SimOutputStream("err", log, ansi=sc["ansi"], screen=screen, on_write=on_write)
+        stream.after_write = after_write
     out = Output(stream, AnsiFormatter())
     out.set_verbosity({0: 0, 1: 1, 2: 2}[sc["verbosity"]])
     return stream, out
